@@ -17,8 +17,10 @@ Open Scope Z_scope.
 Definition toy_canon (v : val) : string :=
   match v with
   | VNone => "None"
+  | VBool true => "True"
+  | VBool false => "False"
   | VInt z => string_of_list_ascii (show_Z z)
-  | VFloat t | VDec t | VFrac t | VUuid t | VPath t | VEnum t | VOther t => t
+  | VFloat t | VDec t | VFrac t | VUuid t | VPath t | VEnum t | VPattern t | VOther t => t
   | VText _ s => s
   | VDate y m d => iso_date (y, m, d)
   | VDateTime d => iso_datetime d
@@ -76,5 +78,18 @@ Definition toy_rt : Runtime := {|
   td_of_seconds := fun x => match x with
                             | VInt z => let '(d, s, us) := td_of_total (z * 1000000) in Ok (d, s, us)
                             | _ => Raise EType end;
-  is_digit_str := fun s => match list_ascii_of_string s with [] => false | cs => forallb is_digit cs end
+  is_digit_str := fun s => match list_ascii_of_string s with [] => false | cs => forallb is_digit cs end;
+  (* two mixin members: SM.a is the str "a", IE.one the int 1; every other member is of a plain Enum *)
+  is_member := fun _ => true;
+  enum_base := fun m => if String.eqb m "SM.a" then Some (VText CStr "a")
+                        else if String.eqb m "IE.one" then Some (VInt 1) else None;
+  py_eq := fun x y => match x, y with
+                      | VFloat a, VInt z | VInt z, VFloat a => String.eqb a (string_of_list_ascii (show_Z z))
+                      | VFloat a, VFloat b => String.eqb a b
+                      | _, _ => false end;
+  truthy := fun v => Ok (negb (String.eqb (toy_canon v) "0"));
+  (* a compiled pattern is its text; "(" does not compile; "a+/I" is a+ compiled with a flag, "b:a" a bytes pattern *)
+  re_compile := fun s => if String.eqb s "(" then Raise EOther else Ok s;
+  pattern_text := fun p => if String.eqb p "a+/I" then VText CStr "a+"
+                           else if String.eqb p "b:a" then VText CBytes "a" else VText CStr p
 |}.
